@@ -135,6 +135,20 @@ package ratelimiter
 //@   ensures [C05.api.reserve] ncalls(r.stats.acquirePermits) == 1 && arg(r.stats.acquirePermits, 1, 0) == permits && arg(r.stats.acquirePermits, 1, 1) == -1 && result == ret(r.stats.acquirePermits, 1)
 //@   havoc
 //@   modifies calls(r.stats.acquirePermits)
+// the blocking acquire: one reservation, then the whole reserved wait (a timer armed with exactly that wait, or a
+// sleep of that length when there is no context); success only after the timer fired
+//@ func (*rateLimiter).AcquirePermits
+//@   requires r != nil && r.stats != nil && permits <= 2147483648
+//@   ext w := ret(r.stats.acquirePermits, 1)
+//@   assume ctx != nil ==> ret(ctx.Err, 1) != nil
+//@   oncall time.NewTimer: assert [C05.blocking.acquire.timer_is_the_reserved_wait] lasttimerdur() == w
+//@   oncall time.Sleep: assert [C05.blocking.acquire.sleeps_the_reserved_wait] callarg_0 == w
+//@   ensures [C05.blocking.acquire.one_reservation] ncalls(r.stats.acquirePermits) == 1 && arg(r.stats.acquirePermits, 1, 0) == permits && arg(r.stats.acquirePermits, 1, 1) == -1
+//@   ensures [C05.blocking.acquire.no_early_success] ctx != nil && result == nil ==> sel(1) == 0
+//@   ensures [C05.blocking.acquire.sleeps_once] ctx == nil ==> result == nil && ncalls(extfn("time.Sleep")) == 1
+//@   ensures [C08.ratelimiter.acquire_cancel] ctx != nil && result != nil ==> ncalls(ctx.Err) == 1 && result == reti(ctx.Err, 1)
+//@   havoc
+//@   modifies calls(r.stats.acquirePermits), calls(ctx.Done), calls(ctx.Err), canceled(ctx), calls(extfn("time.Sleep"))
 //@ func (*rateLimiter).TryAcquirePermit
 //@   requires r != nil && r.stats != nil
 //@   ensures [C05.api.tryacquire1] ncalls(r.stats.acquirePermits) == 1 && arg(r.stats.acquirePermits, 1, 0) == 1 && arg(r.stats.acquirePermits, 1, 1) == 0 && result == (ret(r.stats.acquirePermits, 1) == 0)
